@@ -12,6 +12,7 @@ Sub-checks:
             variable or some variable is not weakly connected to it
 """
 
+import copy
 import itertools
 
 from pmc.domains import graphs as G
@@ -32,6 +33,7 @@ ASSUMPTIONS = [
 ]
 
 T.ALPHABETS['c06m'] = {'concepts': ['x'], 'roles': [':r', ':r-of'], 'atoms': ['k'], 'refs': 'all'}
+T.ALPHABETS['c06amr'] = {'concepts': ['x'], 'roles': [':consist-of', ':consist-of-of', ':ARG0-of', ':mod'], 'atoms': [], 'refs': 'all'}
 T.ALPHABETS['c06n'] = {'concepts': [T.ABSENT, 'x'], 'roles': [':r', ':r-of'], 'atoms': [], 'refs': 'all'}
 
 
@@ -55,6 +57,7 @@ def shards(tier, seed):
         out += T.shard_list(3, 2, 3, 'c06m', extra={'sub': 'edits', 'k': 3, 'bounds': b})
         out += T.shard_list(3, 3, 3, 'c06m', extra={'sub': 'edits', 'k': 2, 'bounds': b})
         out += T.shard_list(4, 4, 4, 'c06n', pin=3, extra={'sub': 'edits', 'k': 2, 'bounds': b})
+    out += T.shard_list(3, 2, 3, 'c06amr', extra={'sub': 'edits', 'k': 1 if q else 2, 'model': 'AMR', 'bounds': 'AMR model, roles ending in -of by definition: <=1/2 edits from the decoding of TREE(3,2,3)'})
     # (ii') surplus POPs: k extra POPs on each triple in turn, k = 1..5
     out += T.shard_list(3, 3, 3, 'c06m', extra={'sub': 'surplus', 'bounds': 'decoding of TREE(3,3,3) (c06m alphabet) with 1..5 surplus POPs added on each triple in turn, every top'})
     # (iii) totality
@@ -98,7 +101,10 @@ def cases(shard):
                     yield {'triples': order, 'marks': marks, 'top': top}
     elif sub == 'edits':
         for t in T.shard_trees(shard):
-            yield {'t': t, 'k': shard['k']}
+            if 'model' in shard:
+                yield {'t': t, 'k': shard['k'], 'model': shard['model']}
+            else:
+                yield {'t': t, 'k': shard['k']}
     elif sub == 'surplus':
         for t in T.shard_trees(shard):
             yield {'t': t}
@@ -137,6 +143,8 @@ def check(case, ctx):
         if any(p or k for p, k in marks):
             ctx.nontrivial += 1
     elif sub == 'edits':
+        if case.get('model'):
+            pm, rm = M.get(case['model'])
         _check_edits(case, ctx, pm, rm)
     elif sub == 'surplus':
         _check_surplus(case, ctx, pm, rm)
@@ -212,9 +220,11 @@ def _check_edits(case, ctx, pm, rm):
     while True:
         for st in frontier:
             g = _graph_of_state(st)
+            gc = copy.deepcopy(g)       # markers equal to, not identical with, the POP singleton (pickle, |, -)
             for top in variables:
-                if not C03._roundtrip(ctx, pm, rm, 'DEFAULT', g, top, wants[top], f'edits(depth {depth})'):
-                    ctx.fails[-1]['case'] = {'t': case['t'], 'k': case['k'], 'state': [list(map(list, st[0])), list(map(list, st[1]))], 'top': top}
+                if not (C03._roundtrip(ctx, pm, rm, rm.name, g, top, wants[top], f'edits(depth {depth})') and
+                        C03._roundtrip(ctx, pm, rm, rm.name, gc, top, wants[top], f'edits(depth {depth}, deep copy)')):
+                    ctx.fails[-1]['case'] = {'t': case['t'], 'k': case['k'], 'model': case.get('model'), 'state': [list(map(list, st[0])), list(map(list, st[1]))], 'top': top}
                     return
         if depth >= case['k']:
             break
